@@ -13,11 +13,13 @@ import (
 	"bytes"
 	"fmt"
 	"io"
+	"runtime"
+	"runtime/debug"
 
 	hessian "github.com/vogo/gohessian"
 )
 
-func init() { register(&Engine{Name: "C06", Run: runC06}) }
+func init() { register(&Engine{Name: "C06", Run: runC06, GCPerRun: true}) }
 
 type pipeSeg struct {
 	data []byte
@@ -283,6 +285,20 @@ func runC06(ch *Choices, cfg *RunCfg) (o *Outcome) {
 		s.StallP = ch.Intn(30, "stallp")
 	}
 
+	// Garbage collection is a nondeterminism source the property can depend on (the encoder's reference
+	// table is keyed by addresses): the collector is switched off for the run and runs only at drawn
+	// points between two writes, so that one seed is one repeatable execution.
+	gcBefore := make([]bool, n)
+	gcP := []int{0, 0, 30, 100}[ch.Intn(4, "gc.p")]
+	for i := range gcBefore {
+		gcBefore[i] = gcP > 0 && ch.Intn(100, "gc?") < gcP
+	}
+	oldGC := debug.SetGCPercent(-1)
+	defer func() {
+		debug.SetGCPercent(oldGC)
+	}()
+	gcs := 0
+
 	got := make([]interface{}, n)
 	readErr := make([]error, n)
 	consumedAfter := make([]int, n)
@@ -312,6 +328,10 @@ func runC06(ch *Choices, cfg *RunCfg) (o *Outcome) {
 			if lockstep && i > 0 {
 				i := i
 				t.Block(func() bool { return returned >= i })
+			}
+			if gcBefore[i] {
+				runtime.GC()
+				gcs++
 			}
 			var err error
 			switch {
@@ -394,6 +414,7 @@ func runC06(ch *Choices, cfg *RunCfg) (o *Outcome) {
 	o.Faults["read returned data together with io.EOF"] += pipe.EOFWithData
 	o.Faults["context switch"] += s.Switches
 	o.Faults["task stalled"] += s.Stalls
+	o.Faults["garbage collection forced between two writes"] += gcs
 	if pipe.MidRune > 0 {
 		o.Probes["reader blocked / short read in the middle of a multi-byte rune"]++
 	}
